@@ -49,12 +49,21 @@ type fragReader struct {
 	pos         int
 	ci          int
 	eofWithData bool
+	// emptyReads: every read that delivers data is preceded by one that returns (0, nil),
+	// which io.Reader permits ("return 0, nil ... means nothing happened")
+	emptyReads bool
+	gaveEmpty  bool
 }
 
 func (f *fragReader) Read(p []byte) (int, error) {
 	if f.pos >= len(f.data) {
 		return 0, io.EOF
 	}
+	if f.emptyReads && !f.gaveEmpty && len(p) > 0 {
+		f.gaveEmpty = true
+		return 0, nil
+	}
+	f.gaveEmpty = false
 	for f.ci < len(f.cuts) && f.cuts[f.ci] <= f.pos {
 		f.ci++
 	}
@@ -74,9 +83,10 @@ func (f *fragReader) Read(p []byte) (int, error) {
 }
 
 type fragSchedule struct {
-	name string
-	cuts func(stream []byte, rng *rand.Rand) []int
-	eofD bool
+	name  string
+	cuts  func(stream []byte, rng *rand.Rand) []int
+	eofD  bool
+	empty bool
 }
 
 func everyN(n int) func([]byte, *rand.Rand) []int {
@@ -91,23 +101,23 @@ func everyN(n int) func([]byte, *rand.Rand) []int {
 
 func runC12(c *Ctx) {
 	r := c.R
-	r.SetRule("payload sizes 0..a few hundred KiB (thorough: 3 MiB) x chunk-size sequences (1, 7, 64 KiB, 40000, 100000, mixed) x read fragmentation of the request body (whole, one byte at a time, 2/3/7/100/4096/32768-byte pieces, halves, every single split point for streams <= 400 bytes, PRNG split points, data returned together with EOF) on every backend; accepted uploads must read back as exactly the payload; malformed framings (bad hex, missing ';', short signature, missing CRLF, truncation at every offset, decoded length +-1) must be rejected with the key unchanged; distinct = (backend, payload size, chunk sizes, schedule) resp. (backend, malformation, offset)")
+	r.SetRule("payload sizes 0..a few hundred KiB (thorough: 3 MiB) x chunk-size sequences (1, 7, 64 KiB, 40000, 100000, mixed) x read fragmentation of the request body (whole, one byte at a time, 2/3/7/100/4096/32768-byte pieces, halves, every single split point for streams <= 400 bytes, PRNG split points, data returned together with EOF, an empty read (0 bytes, no error) before every piece) on every backend; accepted uploads must read back as exactly the payload; malformed framings (bad hex, missing ';', short signature, missing CRLF, truncation at every offset, decoded length +-1) must be rejected with the key unchanged; distinct = (backend, payload size, chunk sizes, schedule) resp. (backend, malformation, offset)")
 	r.Exhaustive(true)
-	r.Set("exhaustive_scope", "every single split point of the encoded stream for payloads of 0..40 bytes in 1-, 7- and 16-byte chunks; truncation at every offset of a 2-chunk stream; on all six backends")
+	r.Set("exhaustive_scope", "every single split point of the encoded stream for payloads of 0..40 bytes in 1-, 7- and 16-byte chunks; truncation at every offset of a 2-chunk stream; on all seven backend configurations")
 	kinds := drv.AllKinds
 	r.Set("backends", kinds)
 	scheds := []fragSchedule{
-		{"whole", func([]byte, *rand.Rand) []int { return nil }, false},
-		{"whole+eof-with-data", func([]byte, *rand.Rand) []int { return nil }, true},
-		{"1-byte", everyN(1), false},
-		{"2-byte", everyN(2), false},
-		{"3-byte+eof-with-data", everyN(3), true},
-		{"7-byte", everyN(7), false},
-		{"100-byte", everyN(100), false},
-		{"4096-byte", everyN(4096), false},
-		{"32768-byte", everyN(32768), false},
-		{"1460-byte(mss)", everyN(1460), true},
-		{"halves", func(s []byte, _ *rand.Rand) []int { return []int{len(s) / 2} }, false},
+		{"whole", func([]byte, *rand.Rand) []int { return nil }, false, false},
+		{"whole+eof-with-data", func([]byte, *rand.Rand) []int { return nil }, true, false},
+		{"1-byte", everyN(1), false, false},
+		{"2-byte", everyN(2), false, false},
+		{"3-byte+eof-with-data", everyN(3), true, false},
+		{"7-byte", everyN(7), false, false},
+		{"100-byte", everyN(100), false, false},
+		{"4096-byte", everyN(4096), false, false},
+		{"32768-byte", everyN(32768), false, false},
+		{"1460-byte(mss)", everyN(1460), true, false},
+		{"halves", func(s []byte, _ *rand.Rand) []int { return []int{len(s) / 2} }, false, false},
 		{"random", func(s []byte, rng *rand.Rand) []int {
 			var c []int
 			p := 0
@@ -116,7 +126,10 @@ func runC12(c *Ctx) {
 				c = append(c, p)
 			}
 			return c
-		}, false},
+		}, false, false},
+		{"whole+empty-reads", func([]byte, *rand.Rand) []int { return nil }, false, true},
+		{"5-byte+empty-reads", everyN(5), true, true},
+		{"4096-byte+empty-reads", everyN(4096), false, true},
 		{"random-small", func(s []byte, rng *rand.Rand) []int {
 			var c []int
 			p := 0
@@ -125,7 +138,7 @@ func runC12(c *Ctx) {
 				c = append(c, p)
 			}
 			return c
-		}, true},
+		}, true, false},
 	}
 	chunkings := [][]int{{1}, {7}, {16}, {65536}, {40000}, {100000}, {8192, 1, 65536, 3}, {1 << 20}}
 	type job struct {
@@ -158,7 +171,7 @@ func runC12(c *Ctx) {
 			}
 			key := fmt.Sprintf("chunked/p%d/obj-%d", j.part, caseNo%5)
 			q := chunkedReq(bucket, key, nil, len(payload))
-			q.BodyReader = &fragReader{data: stream, cuts: cuts, eofWithData: sc.eofD}
+			q.BodyReader = &fragReader{data: stream, cuts: cuts, eofWithData: sc.eofD, emptyReads: sc.empty}
 			q.DeclLen = i64(int64(len(stream)))
 			resp := s.Do(q)
 			r.Eval(1)
@@ -255,7 +268,14 @@ func runC12(c *Ctx) {
 						s.Put(bucket, key, prior, nil)
 					}
 					before := s.Get(bucket, key)
-					resp := s.Do(chunkedReq(bucket, key, stream, decoded))
+					mq := chunkedReq(bucket, key, stream, decoded)
+					if strings.HasSuffix(name, "+empty-reads") {
+						// the same stream delivered in 5-byte pieces with an empty read before each
+						mq = chunkedReq(bucket, key, nil, decoded)
+						mq.BodyReader = &fragReader{data: stream, cuts: everyN(5)(stream, nil), emptyReads: true}
+						mq.DeclLen = i64(int64(len(stream)))
+					}
+					resp := s.Do(mq)
 					after := s.Get(bucket, key)
 					r.Eval(1)
 					r.Count("malformed_streams", 1)
@@ -298,6 +318,10 @@ func runC12(c *Ctx) {
 			}
 			mal("decoded-length+1", good, len(payload)+1, "-", "reject")
 			mal("decoded-length-1", good, len(payload)-1, "-", "reject")
+			for _, d := range []int{1, 2, 23, 24, 25, 47} {
+				mal("decoded-length-short+empty-reads", good, len(payload)-d, fmt.Sprintf("-%d", d), "reject")
+			}
+			mal("decoded-length+1+empty-reads", good, len(payload)+1, "-", "reject")
 			mal("decoded-length-0", good, 0, "-", "reject")
 			rep1 := func(old, new string) []byte { return []byte(strings.Replace(string(good), old, new, 1)) }
 			mal("bad-hex-size", append([]byte("zz"), good[2:]...), len(payload), "first header", "reject")
